@@ -5,17 +5,17 @@ def defaultMaxBlobSize : Nat := 1500000
 /-- ids released per call by the real sequencer: start=1 drift=2, height 1 = aa01 aa02 aa03, height 2 = bb01, head 50, three calls with limit 5 -/
 def w1Ids : List (List Bytes) :=
   [[([1, 0, 0, 0, 0, 0, 0, 0, 1, 0, 0, 0, 0, 0, 0, 0] : Bytes), ([1, 0, 0, 0, 0, 0, 0, 0, 2, 0, 0, 0, 0, 0, 0, 0] : Bytes)],
-   [([1, 0, 0, 0, 0, 0, 0, 0, 3, 0, 0, 0, 0, 0, 0, 0] : Bytes), ([1, 0, 0, 0, 0, 0, 0, 0, 1, 0, 0, 0, 0, 0, 0, 0] : Bytes)],
-   [([1, 0, 0, 0, 0, 0, 0, 0, 2, 0, 0, 0, 0, 0, 0, 0] : Bytes), ([1, 0, 0, 0, 0, 0, 0, 0, 3, 0, 0, 0, 0, 0, 0, 0] : Bytes)]]
+   [([1, 0, 0, 0, 0, 0, 0, 0, 3, 0, 0, 0, 0, 0, 0, 0] : Bytes), ([2, 0, 0, 0, 0, 0, 0, 0, 1, 0, 0, 0, 0, 0, 0, 0] : Bytes)],
+   []]
 /-- start=1 drift=1: height 1 = 01 (head 2), one call; then height 2 = 02 appears (head 10), two calls -/
 def w2Ids : List (List Bytes) :=
   [[([1, 0, 0, 0, 0, 0, 0, 0, 1, 0, 0, 0, 0, 0, 0, 0] : Bytes)],
-   [],
+   [([2, 0, 0, 0, 0, 0, 0, 0, 1, 0, 0, 0, 0, 0, 0, 0] : Bytes)],
    []]
 /-- start=1 drift=1: height 1 = 01, 090909090909 (6 bytes), 03; height 2 = 04; three calls with limit 4 -/
 def w3Ids : List (List Bytes) :=
   [[([1, 0, 0, 0, 0, 0, 0, 0, 1, 0, 0, 0, 0, 0, 0, 0] : Bytes)],
-   [([1, 0, 0, 0, 0, 0, 0, 0, 1, 0, 0, 0, 0, 0, 0, 0] : Bytes)],
-   [([1, 0, 0, 0, 0, 0, 0, 0, 1, 0, 0, 0, 0, 0, 0, 0] : Bytes)]]
+   [],
+   []]
 
 end Gen.C20
